@@ -19,7 +19,7 @@ def make_spec(task):
 
 def work(task):
     spec = make_spec(task)
-    R = engine.Runner(spec)
+    R = engine.Runner(spec, 'moved' if task[4] == 'moved' else 'api')
     R.delayed_event = task[4] == 'delayed'
     res = engine.explore(spec, task[3], [engine.oracle_conflict], extra_ops=True, runner=R)
     res['desc'] = describe(spec)
@@ -36,6 +36,12 @@ def run(tier, seed):
     # nested orthogonal states, larger charts: every triple of pairwise-orthogonal sources
     for tree in skeletons(NESTED[tier][0], NESTED[tier][1], history=False, final=False, require='nested-orth'):
         tasks.append((tree, 'asc', 0, '3o', False))
+    # charts restructured with move_state after all queries were served once (composite states first live under
+    # the root): the conflict test relies on descendants / ancestors / depths that must follow the edit
+    for tree in skeletons(5, 6, history=False, final=False):
+        r = repr(tree)
+        if "'O'" in r and r.count("'C'") + r.count("'O'") >= 3:
+            tasks.append((tree, 'asc', 0, 2 if tier == 'quick' else 3, 'moved'))
     for nmin, nmax, k, twin in PLAN[tier]:
         for tree in skeletons(nmin, nmax, history=False, final=False):
             for scheme in ('asc', 'desc'):
@@ -78,7 +84,7 @@ def replay(data):
     from mc import probes
     task = schemes._tupled(data['task'])
     spec = make_spec(task)
-    R = engine.Runner(spec)
+    R = engine.Runner(spec, 'moved' if task[4] == 'moved' else 'api')
     it = R.new_interpreter()
     it.execute_once()
     print('chart   :', describe(spec))
